@@ -380,9 +380,54 @@ class C12(Property):
 
     # ------------------------------------------------------------------ generators
     def cases(self, rng: random.Random, tier: str, deep: bool) -> Iterator[Dict[str, Any]]:
-        n = 9000 if deep else 900
+        if deep:
+            total = 0
+            for case in self.small_scope():
+                total += 1
+                yield case
+            self.exhaustive_done = True
+            self.extra_coverage = {"small_scope_cases": total,
+                                   "small_scope": "every single-subregion region (all starts/ends, also over the origin and "
+                                                  "all the way round) on a line and a ring of 12 bases x 3 fixed gene layouts"}
+        n = 20000 if deep else 2000
         for i in range(n):
-            yield self.random_case(rng, i)
+            r = rng.random()
+            if r < 0.70:
+                yield self.random_case(rng)
+            elif r < 0.78:
+                yield self.whole_record_case(rng)
+            elif r < 0.86:
+                yield self.record_end_case(rng)
+            elif r < 0.94:
+                yield self.multi_exon_over_origin_case(rng)
+            else:
+                yield self.three_around_origin_case(rng)
+
+    def small_scope(self) -> Iterator[Dict[str, Any]]:
+        length = 12
+        layouts = [
+            [{"loc": simple(1, 4, 1), "name": "a"}, {"loc": simple(5, 8, -1), "name": "b"},
+             {"loc": span(10, 2, length, 1), "name": "c"}],
+            [{"loc": {"c": True, "parts": [[1, 4, 1], [6, 9, 1]]}, "name": "a"}, {"loc": span(9, 3, length, -1), "name": "b"}],
+            [{"loc": simple(0, 3, 1), "name": "a"}, {"loc": simple(9, 12, -1), "name": "b"},
+             {"loc": {"c": True, "parts": [[7, 10, -1], [2, 5, -1]]}, "name": "c"}],
+        ]
+        for circular in (False, True):
+            for k, layout in enumerate(layouts):
+                cds = [c for c in layout if circular or not (c["loc"]["c"] and c["loc"]["parts"][0][0] > c["loc"]["parts"][-1][0]
+                                                              and c["loc"]["parts"][0][2] == 1)
+                       and not (not circular and c["loc"]["c"] and c["loc"]["parts"][0][2] == -1
+                                and c["loc"]["parts"][0][0] < c["loc"]["parts"][-1][0])]
+                for start in range(length):
+                    for end in range(1, length + 1):
+                        if start < end:
+                            loc = simple(start, end)
+                        elif circular and end <= start and start > 0:
+                            loc = span(start, end, length)
+                        else:
+                            continue
+                        yield {"len": length, "circular": circular, "seqseed": k, "protos": [],
+                               "subs": [{"loc": loc, "label": "s"}], "cds": cds, "peps": [], "misc": []}
 
     def random_case(self, rng: random.Random, i: int = 0) -> Dict[str, Any]:
         length = rng.choice([40, 60, 60, 90, 120, 200, 400, 1000, 3000])
@@ -395,6 +440,80 @@ class C12(Property):
             twin = dict(rng.choice(case["protos"]))
             twin["product"] = "twin"
             case["protos"].append(twin)
+        # most precursor peptides sit well inside an area, as real ones do
+        areas = [p["core"] for p in case["protos"] if not p["core"]["c"]]
+        for pep in case["peps"]:
+            size = pep["loc"]["parts"][0][1] - pep["loc"]["parts"][0][0]
+            fitting = [a for a in areas if a["parts"][0][1] - a["parts"][0][0] >= size]
+            if fitting and rng.random() < 0.7:
+                lo = fitting[0]["parts"][0][0]
+                pep["loc"] = simple(lo, lo + size, pep["loc"]["parts"][0][2])
+        return case
+
+    def whole_record_case(self, rng: random.Random) -> Dict[str, Any]:
+        """a region going all the way round a circular record, starting anywhere"""
+        length = rng.choice([30, 40, 60, 100])
+        case = gen_layout(rng, length, True, n_protos=rng.choice([0, 1, 2]), n_subs=0, n_cds=rng.choice([2, 5]),
+                          n_peps=rng.choice([0, 1]), n_misc=rng.choice([0, 2]))
+        k = rng.randrange(0, length)
+        case["subs"] = [{"loc": span(k, k, length) if k else simple(0, length), "label": "all"}]
+        return case
+
+    def record_end_case(self, rng: random.Random) -> Dict[str, Any]:
+        """regions touching the first and the last base of a record"""
+        length = rng.choice([60, 100, 300])
+        circular = rng.random() < 0.4
+        case = gen_layout(rng, length, circular, n_protos=0, n_subs=rng.choice([0, 1]), n_cds=rng.choice([3, 6]),
+                          n_peps=0, n_misc=rng.choice([0, 2]))
+        a, b = rng.randint(5, length // 3), rng.randint(2 * length // 3, length - 5)
+        case["protos"] = [{"core": simple(rng.randint(0, 2), a - 1), "loc": simple(0, a), "product": "first"},
+                          {"core": simple(b + 1, length - rng.randint(0, 2)), "loc": simple(b, length), "product": "last"}]
+        return case
+
+    def multi_exon_over_origin_case(self, rng: random.Random) -> Dict[str, Any]:
+        """an origin-spanning region with origin-spanning genes of two and three exons, inside it and reaching out of it"""
+        length = rng.choice([60, 100, 200])
+        start, end = length - rng.randint(12, 25), rng.randint(12, 25)
+        case = gen_layout(rng, length, True, n_protos=0, n_subs=rng.choice([0, 1]), n_cds=rng.choice([0, 3]),
+                          n_peps=rng.choice([0, 1]), n_misc=0)
+        case["subs"].append({"loc": span(start, end, length), "label": "over"})
+        for i in range(rng.choice([1, 2, 3])):
+            strand = rng.choice([1, -1])
+            x = length - rng.randint(1, 30)
+            y = rng.randint(1, 30)
+            parts = [[x, length, strand], [0, y, strand]]
+            if rng.random() < 0.5 and x - 8 > end + 5:
+                parts.insert(0, [x - 8, x - 3, strand])
+            if rng.random() < 0.3:
+                parts.append([y + 3, y + 7, strand])
+            if strand == -1:
+                parts.reverse()
+            case["cds"].append({"loc": {"c": True, "parts": parts}, "name": f"over{i}"})
+        if rng.random() < 0.5:
+            size = 3 * rng.randint(2, 4)
+            lo = rng.randint(0, max(0, end - size))
+            case["peps"].append({"loc": simple(lo, lo + size, rng.choice([1, -1])), "name": "after",
+                                 "lens": [1, size // 3 - 2, 1]})
+        return case
+
+    def three_around_origin_case(self, rng: random.Random) -> Dict[str, Any]:
+        """D21's layout: protoclusters before, over and after the origin in one region, more regions mid-record"""
+        length = rng.choice([600, 2000, 6000])
+        u = length // 60
+        pre = [length - 10 * u, length - 2 * u]
+        over = [length - 3 * u - rng.randint(0, u), 2 * u + rng.randint(0, u)]
+        post = [u + rng.randint(0, u), 8 * u]
+        case = gen_layout(rng, length, True, n_protos=0, n_subs=0, n_cds=rng.choice([0, 4]), n_peps=0, n_misc=0)
+        case["protos"] = [
+            {"core": simple(pre[0] + u, pre[1] - u), "loc": simple(pre[0], pre[1]), "product": "pre"},
+            {"core": span(over[0] + u // 2, over[1] - u // 2, length), "loc": span(over[0], over[1], length), "product": "over"},
+            {"core": simple(post[0] + u // 2, post[1] - u), "loc": simple(post[0], post[1]), "product": "post"}]
+        for k in range(rng.choice([1, 2])):
+            lo = 15 * u + 12 * u * k
+            case["protos"].append({"core": simple(lo + u, lo + 3 * u), "loc": simple(lo, lo + 5 * u), "product": f"mid{k}"})
+        rng.shuffle(case["protos"])
+        if rng.random() < 0.5:
+            case["subs"] = [{"loc": simple(16 * u, 18 * u), "label": "in-mid"}, {"loc": simple(40 * u, 43 * u), "label": "alone"}]
         return case
 
     # ------------------------------------------------------------------ implementation adapter
@@ -531,7 +650,8 @@ class C12(Property):
                 tags.append("equal-areas")
         if known == "none" or spec:
             known = None
-        scope = bool(drv.get("scope", True))
+        scope = all(bool(d.get("scope", True)) for d in drv["regions"])
+        tags.append("in-scope" if scope else "out-of-scope")
         return Judgement(corr, spec, in_scope=scope, known=known, nontrivial=nontrivial,
                          tags=tuple(sorted(set(tags))), detail=" | ".join(details)[:3000])
 
